@@ -128,7 +128,7 @@ def main():
     R = load_registry()
     mine = [c for c in R.values() if c.prop == prop and not c.trusted and (not a.only or a.only in c.key)]
     timeout_ms = 10000 if tier == "quick" else 60000
-    obligs, carriers, errors, assumptions, covers = [], [], [], set(), []
+    obligs, carriers, errors, assumptions, covers, used_lemmas = [], [], [], set(), [], set()
     if not a.no_proof:
         for c in mine:
             v = Verifier(R, prop)
@@ -153,7 +153,24 @@ def main():
                 errors.append(f"{c.key}: no path reaches a normal exit (cover failed)")
             obligs.extend(v.obligs)
             covers.extend(v.covers)
+            used_lemmas |= v.used_lemmas
             assumptions |= v.assumptions
+    if not a.no_proof and not a.only:
+        try:
+            pm = importlib.import_module(f"contracts.{prop}")
+            if hasattr(pm, "lemmas"):
+                from pyvc.engine import Oblig
+
+                for lab, hyps, goal in pm.lemmas():
+                    obligs.append(Oblig(f"{prop}/lemma/{lab}", list(hyps), goal, "lemma", "lemma over the contracts' spec functions"))
+        except ModuleNotFoundError:
+            pass
+    if used_lemmas:
+        from pyvc import lemmas as _lm
+        from pyvc.engine import Oblig
+
+        for nm in sorted(used_lemmas):
+            obligs.append(Oblig(f"{prop}/lemma/{nm}", [], _lm.abstract_goal(nm), "lemma", "abstract lemma instantiated as a proof hint"))
     results = discharge_all(obligs + covers, timeout_ms, cover_timeout_ms=3000) if obligs else {}
     for name in [n for n in results if "/cover/" in n]:
         for r in results.pop(name):
